@@ -278,6 +278,9 @@ type Listeners struct {
 	Metrics     int    `json:"metrics"` // 0 = metrics disabled
 	MetricsPath string `json:"metrics_path"`
 	Admin       int    `json:"admin"` // 0 = admin API disabled
+	// what the file says about secrets ("" = nothing to send / nothing to check)
+	APIKey     string `json:"api_key,omitempty"`     // apiKey of the chain's custom-auth entries: sent as X-API-Key
+	AdminToken string `json:"admin_token,omitempty"` // admin_api.auth_token: "Authorization: Bearer <token>" must not be answered 401
 }
 
 const (
@@ -303,6 +306,10 @@ func startBackend() *liveBackend {
 }
 
 func httpGet(url string) (status int, fromBackend bool, err error) {
+	return httpGetWith(url, VerifAPIKey, "")
+}
+
+func httpGetWith(url, apiKey, bearer string) (status int, fromBackend bool, err error) {
 	tr := &http.Transport{DisableKeepAlives: true, DisableCompression: true,
 		TLSClientConfig: &tls.Config{InsecureSkipVerify: true}, // #nosec: loopback test client
 		DialContext:     (&net.Dialer{Timeout: 5 * time.Second}).DialContext}
@@ -312,7 +319,10 @@ func httpGet(url string) (status int, fromBackend bool, err error) {
 	if err != nil {
 		return 0, false, err
 	}
-	req.Header.Set("X-API-Key", VerifAPIKey) // generated custom-auth entries use this key
+	req.Header.Set("X-API-Key", apiKey) // the key the configuration file gives its custom-auth entries
+	if bearer != "" {
+		req.Header.Set("Authorization", "Bearer "+bearer)
+	}
 	res, err := cl.Do(req)
 	if err != nil {
 		return 0, false, err
@@ -385,10 +395,14 @@ func runBinary(h *lab.Helios, ls Listeners) Verdict {
 	if ls.TLS {
 		scheme = "https"
 	}
-	status, fromBackend, err := httpGet(fmt.Sprintf("%s://127.0.0.1:%d/verif", scheme, ls.Proxy))
+	apiKey := ls.APIKey
+	if apiKey == "" {
+		apiKey = VerifAPIKey
+	}
+	status, fromBackend, err := httpGetWith(fmt.Sprintf("%s://127.0.0.1:%d/verif", scheme, ls.Proxy), apiKey, "")
 	if ne, ok := err.(interface{ Timeout() bool }); ok && ne.Timeout() {
 		// a client-side time budget ran out (loaded machine): one more attempt before judging
-		status, fromBackend, err = httpGet(fmt.Sprintf("%s://127.0.0.1:%d/verif", scheme, ls.Proxy))
+		status, fromBackend, err = httpGetWith(fmt.Sprintf("%s://127.0.0.1:%d/verif", scheme, ls.Proxy), apiKey, "")
 	}
 	if err != nil || !fromBackend {
 		// the listener on the proxy port may belong to an ancillary server of a process that is
@@ -427,6 +441,17 @@ func runBinary(h *lab.Helios, ls Listeners) Verdict {
 				return Verdict{"violation", fmt.Sprintf("the proxy serves on %d but the enabled %s listener does not answer at %s within %v (%s): half-configured", ls.Proxy, a.name, a.url, ancillaryWait, last), h.Log()}
 			}
 			time.Sleep(10 * time.Millisecond)
+		}
+	}
+	if ls.Admin != 0 && ls.AdminToken != "" {
+		// "All endpoints except /v1/health require a JWT token passed via the Authorization: Bearer <token> header"
+		st, _, err := httpGetWith(fmt.Sprintf("http://127.0.0.1:%d/v1/backends", ls.Admin), apiKey, ls.AdminToken)
+		if err == nil && st == http.StatusUnauthorized {
+			return Verdict{"violation", fmt.Sprintf("the admin API answers 401 to \"Authorization: Bearer %s\" although that is the auth_token of the configuration file", ls.AdminToken), h.Log()}
+		}
+		st, _, err = httpGetWith(fmt.Sprintf("http://127.0.0.1:%d/v1/backends", ls.Admin), apiKey, ls.AdminToken+"x")
+		if err == nil && st == http.StatusOK {
+			return Verdict{"violation", fmt.Sprintf("the admin API answers 200 to the token %q, the configuration file says %q", ls.AdminToken+"x", ls.AdminToken), h.Log()}
 		}
 	}
 	if ex, code := h.Exited(); ex {
